@@ -4,6 +4,7 @@ package main
 
 import (
 	"fmt"
+	"go/ast"
 	"go/token"
 	"sort"
 	"strings"
@@ -153,10 +154,7 @@ func (fr *frame) run(order []nkey, incoming map[nkey][]edgePayload, rc *runCtx) 
 // invariant environment: parameters, named header phis, idx
 func (fr *frame) invEnv(l *loopInfo, st *State, env map[ssa.Value]Val) *TEnv {
 	vc := fr.vc
-	te := vc.newTEnv(st, fr.entry, fr.fn.Pkg)
-	if te.pkg == nil && fr.fn.Origin() != nil {
-		te.pkg = fr.fn.Origin().Pkg
-	}
+	te := vc.newTEnv(st, fr.entry, vc.eng.pkgOfFn(fr.fn))
 	// parameters
 	names := map[int]string{}
 	if fr.contract != nil {
@@ -187,6 +185,30 @@ func (fr *frame) invEnv(l *loopInfo, st *State, env map[ssa.Value]Val) *TEnv {
 					if _, taken := te.vars[a.Comment]; !taken {
 						te.bind(a.Comment, v, a.Type())
 					}
+				}
+			}
+		}
+	}
+	// other locals declared before the loop, through the debug references go/ssa keeps for them
+	for _, b := range fr.fn.Blocks {
+		if b != l.header && !b.Dominates(l.header) {
+			continue
+		}
+		for _, ins := range b.Instrs {
+			d, ok := ins.(*ssa.DebugRef)
+			if !ok || d.IsAddr {
+				continue
+			}
+			id, ok := d.Expr.(*ast.Ident)
+			if !ok {
+				continue
+			}
+			if _, isPhi := d.X.(*ssa.Phi); isPhi {
+				continue
+			}
+			if v, ok := env[d.X]; ok {
+				if _, taken := te.vars[id.Name]; !taken {
+					te.bind(id.Name, v, d.X.Type())
 				}
 			}
 		}
@@ -310,7 +332,19 @@ func (fr *frame) cutLoopHeader(l *loopInfo, cur *State, env map[ssa.Value]Val, r
 		hv := vc.havocVal(phi.Type(), "loop_"+phi.Comment, "")
 		env[phi] = hv
 		if isRangeIndexPhi(phi) {
+			// structural facts of the range-over-slice lowering: -1 <= index, index+1 <= len
 			vc.assume("true", "(>= "+hv.t+" (- 1))")
+			for _, hi := range l.header.Instrs {
+				if cmp, ok := hi.(*ssa.BinOp); ok && cmp.Op == token.LSS {
+					if add, ok := cmp.X.(*ssa.BinOp); ok && add.Op == token.ADD && add.X == ssa.Value(phi) {
+						if lv, ok := env[cmp.Y]; ok {
+							vc.assume("true", "(<= (+ "+hv.t+" 1) "+lv.t+")")
+						} else if c, ok := cmp.Y.(*ssa.Const); ok {
+							vc.assume("true", "(<= (+ "+hv.t+" 1) "+vc.constVal(c).t+")")
+						}
+					}
+				}
+			}
 		}
 	}
 	var hk []string
